@@ -36,7 +36,25 @@ def sig_nested(c, i, m, rec, p):
     return sum(1 for a in chain if a.startswith("j")) >= 2 and (p.startswith("fail:passed:") or p.startswith("fail:order:"))
 
 
+def shrink(case):
+    """candidates with fewer events: drop halves, then single events (a case is `cmd 12 params nev (src stream spec)*`)"""
+    t = case.split()
+    head, n, ev = t[:13], int(t[13]), t[14:]
+    evs = [ev[k:k + 3] for k in range(0, len(ev), 3)]
+    out = []
+    def mk(sub):
+        return " ".join(head + [str(len(sub))] + [x for e in sub for x in e])
+    if n > 3:
+        out.append(mk(evs[: n // 2])); out.append(mk(evs[n // 2:]))
+    for k in range(n):
+        if n > 1:
+            out.append(mk(evs[:k] + evs[k + 1:]))
+    return out
+
+
 CFG = {
+    "shrink": shrink,
+    "shrink_budget": 80,
     "manifest": {
         "text": "Proof: on the Lean model M1 of the commit path, commits_in_read_order_partial (commit notifications of a stream strictly increase in read order), commit_offsets_increase, no_double_finish (no event committed or dropped twice) and conservation (once idle, accepted = commits + drops, each exactly once) hold for every op list without a dead queue; with a dead queue the order clause is refuted by a proved counterexample (known finding). Tie: boundary traces of the real pipeline replayed through the model; the Spec oracle (order, once, nothing lost when idle) is evaluated on the trace itself.",
         "note": "Trusted: Lean kernel + standard axioms; fdmodel compilation; harness and trace hooks (verif tag). Assumed: Go mutex/cond/channel semantics; 'finished' = send returned nil or the error callback was invoked after the configured retries. The hand-over order guard of `add` is the interface to the stream/processor layer (checked on every trace; proved from the stream protocol in M2 where available). Not modelled: Spawn/split children, action internals.",
